@@ -53,6 +53,8 @@ class PathState:
         self.cur = 0
         self.env = {}        # local -> expr ; ('f', local, fieldpath) -> expr for partial writes
         self.events = []     # ('call', Call, args_exprs) | ('branch', block, discr_expr, taken_value, target)
+        self.raw_arrays = []  # array literals stored through a raw pointer on this path (the expansion of vec![a, b, ..])
+        self.iters = {}       # id -> [elements, cursor]: iterators over a literal list (see _list_call)
         for i in range(1, body.arg_count + 1):
             self.env[i] = ('param', i)
 
@@ -142,6 +144,8 @@ class PathState:
             self.env[pl['l']] = e
         else:
             self.events.append(('store', self.cur, pl, e))
+            if e[0] == 'agg' and e[1] == 'array' and pl['p'][0]['k'] == 'deref':
+                self.raw_arrays.append(e)
             # partial write: remember checked-binop tuple fields and struct fields
             names = tuple(p['name'] for p in pl['p'] if p['k'] == 'field')
             if len(names) == len(pl['p']):
@@ -153,6 +157,42 @@ class PathState:
                 if r and r[0] == 'refl':
                     self.env[r[1]] = e
             # else: ignore
+
+    def _list_call(self, c, args):
+        """literal lists: `vec![e1, .., ek]` / `[e1, .., ek]` and the iterator obtained from one by into_iter().  The k-th call of next()
+        on such an iterator on a path returns Some(ek), the (k+1)-th None: a `for` loop over a literal list is thereby unrolled by the
+        path enumeration (callers raise max_visits), every iteration seeing the element it really processes."""
+        name = c.callee
+        if name == 'std::boxed::box_assume_init_into_vec_unsafe' and self.raw_arrays:
+            return ('list', self.raw_arrays[-1][3])
+        if name in ('std::slice::<impl [T]>::into_vec', 'std::slice::hack::into_vec') and args:
+            for n in (strip(args[0]),):
+                if n[0] == 'call' and n[1].endswith('Box::<T>::new') and strip(n[3][0])[0] == 'agg' and strip(n[3][0])[1] == 'array':
+                    return ('list', strip(n[3][0])[3])
+        if name.endswith('IntoIterator>::into_iter') and args:
+            a = strip(args[0])
+            if a[0] == 'agg' and a[1] == 'array':
+                a = ('list', a[3])
+            if a[0] == 'list':
+                uid = len(self.iters)
+                self.iters[uid] = [a[1], 0]
+                return ('listiter', uid)
+        if name.endswith('as std::iter::Iterator>::next') and args:
+            a = args[0]
+            for _ in range(6):
+                if a[0] == 'refl':
+                    a = self.env.get(a[1], ('unknown', 'undef'))
+                elif a[0] in ('ref', 'refm', 'cast', 'deref'):
+                    a = a[1]
+                else:
+                    break
+            if a[0] == 'listiter':
+                it = self.iters[a[1]]
+                it[1] += 1
+                if it[1] <= len(it[0]):
+                    return ('agg', 'std::option::Option', 'Some', (it[0][it[1] - 1],), ('0',), 1)
+                return ('agg', 'std::option::Option', 'None', (), (), 0)
+        return None
 
     def known_discr(self, d):
         """value of a switch discriminant when it is statically known on this path (constant, or the
@@ -206,6 +246,10 @@ class PathState:
                 res = ('call', c.callee, b, args)
             rargs = tuple(self.deep(a) for a in args)
             self.events.append(('call', c, args, rargs))
+            lst = self._list_call(c, args)
+            if lst is not None:
+                self.assign(c.dest, lst)
+                return
             for a in args:
                 r = root_mut_local(a) if not is_transparent(c.callee) else None
                 if r is not None:
